@@ -856,10 +856,12 @@ def rule_MX(run: Run) -> RuleResult:
                 if gi >= 0 and si >= 0 and not si < gi:
                     v[0], v[1] = False, k[:90]
             elif k == GIV:
-                if cond_pol(p.conds, f"cmp:Is({n_},Const(None))") is not False:
+                from .interp import Frame as _Fr
+                if cond_pol(p.conds, f"cmp:Is({n_},Const(None))") is not False and _Fr.atoms(p.conds).get(n_) is not True:
                     v[0], v[1] = False, f"{k[:60]} also when nothing was given"
             elif k == STO:
-                if cond_pol(p.conds, f"cmp:Is({n_},Const(None))") is False:
+                from .interp import Frame as _Fr
+                if cond_pol(p.conds, f"cmp:Is({n_},Const(None))") is False or _Fr.atoms(p.conds).get(n_) is True:
                     v[0], v[1] = False, f"{k[:60]} although something was given"
     for n_, (ok_, how_) in sorted(verdicts.items()):
         res.add(f"labrea.dataset.DatasetFactory.update:{n_} given now wins over the factory's own", ok_, df.module.relpath, upd.lineno, how_,
